@@ -175,6 +175,11 @@ func c10Contexts(lit string) []escCase {
 		mk("repeated", "[{{ "+lit+".repeat(2) }}]", "[", c10Escape(rawOf(lit))+"]"),
 		mk("sliced-array", "[{{ ['p', "+lit+", 'q'].slice(1, 2)[0] }}]", "[", "]"),
 		mk("reversed-array", "[{{ ["+lit+", 'p'].reverse()[1] }}]", "[", "]"),
+		// arrays derived from one array do not share their elements: the literal stays where it was put
+		mk("two-appends-on-one-base", "{{ b = ['p', 'q', 'r'] }}{{ f = b.append("+lit+") }}{{ g = b.append('other') }}[{{ f[3] }}]", "[", "]"),
+		mk("base-of-two-appends", "{{ b = ['p', 'q', "+lit+"] }}{{ f = b.append('one') }}{{ g = b.append('two') }}[{{ f[2] }}{{ f[3] }}]", "[", "one]"),
+		mk("slice-then-append", "{{ all = ['p', "+lit+", 'r'] }}{{ o = all.slice(0, 1).append('x') }}[{{ all[1] }}]", "[", "]"),
+		mk("slice-then-append-twice", "{{ all = ['p', 'q', "+lit+", 's', 't'] }}{{ o = all.slice(0, 2).append('x') }}{{ o2 = all.slice(1, 2).append('y', 'z') }}[{{ all[2] }}]", "[", "]"),
 		// the literal handed to a registered Go function that gives it back: it is still the literal's text
 		mk("custom-identity", "[{{ "+lit+".zzSame() }}]", "[", "]"),
 		mk("custom-identity-of-variable", "{{ v = "+lit+" }}[{{ v.zzSame() }}]", "[", "]"),
